@@ -99,6 +99,8 @@ def tlc_scenarios(work, n, depth, seed_):
             if "seqs" in s["a"]:
                 s["a"]["seqs"] = sorted(s["a"]["seqs"])
         steps += sweep(steps, rnd)
+        if len(res) % 2 == 0:
+            add_backfills(steps, rnd, 1)
         res.append({"steps": steps, "src": "tlc"})
     return res
 
@@ -192,9 +194,56 @@ def random_history(rnd, maxops=40):
     return {"steps": steps[:maxops], "src": "random"}
 
 
+FAULTS = ["500", "reset", "garbage", "badb64"]
+
+
+def add_backfills(steps, rnd, count):
+    """Insert `count` GapBackfill steps (FindMissingMessages with rpc_backfill against a scripted backfill node) at random
+    positions.  The plan says per missing sequence what the node does: deliver the VAA, 404, or misbehave."""
+    for _ in range(count):
+        pos = rnd.randint(1, len(steps)) if steps else 0
+        cur = set()
+        for st_ in steps[:pos]:
+            if st_["ev"] == "Store":
+                cur.add(key(st_["a"]["v"]["id"]))
+            elif st_["ev"] == "GapBackfill":      # intended effect: gaps are visited in ascending order, "500" ends the call
+                s0 = st_["a"]["st"]
+                for q in sorted(int(k) for k in st_["a"]["plan"]):
+                    b = st_["a"]["plan"][str(q)]
+                    if b == "500":
+                        break
+                    if b == "ok":
+                        cur.add((s0["ec"], s0["em"], s0["tc"], q))
+        streams = sorted({k[:3] for k in cur if k[2] not in HUGE_TARGETS and k[3] < BIG_BASE})
+        if not streams:
+            continue
+        ec, em, tc = rnd.choice(streams)
+        own = {k[3] for k in cur if k[:3] == (ec, em, tc)}
+        missing = gap_of(own)[0] or [0]
+        plan = {}
+        mode = rnd.random()
+        for q in missing:
+            plan[str(q)] = "ok" if rnd.random() < (0.5 if mode < 0.8 else 1.0) else "404"
+        if mode < 0.55 and missing:                # one misbehaviour at a chosen position k (first, last, anywhere)
+            k = rnd.choice([missing[0], missing[-1], rnd.choice(missing)])
+            plan[str(k)] = rnd.choice(FAULTS)
+        elif mode < 0.65:                          # several
+            for q in rnd.sample(missing, min(len(missing), 3)):
+                plan[str(q)] = rnd.choice(FAULTS[1:])
+        steps.insert(pos, {"ev": "GapBackfill", "a": {"st": ST(ec, em, tc), "plan": plan}})
+        # look at the result through the other layers right afterwards
+        steps.insert(pos + 1, {"ev": "Gap", "a": {"st": ST(ec, em, tc)}})
+        steps.insert(pos + 2, {"ev": "NonGovBatch", "a": {"st": ST(ec, em, tc), "seqs": missing[:20]}})
+    return steps
+
+
 def gen_scenarios(seed_, n):
     rnd = random.Random("store-%d" % seed_)
-    return [random_history(rnd) for _ in range(n)]
+    res = [random_history(rnd) for _ in range(n)]
+    for i, sc in enumerate(res):
+        if i % 2 == 0:
+            add_backfills(sc["steps"], rnd, rnd.randint(1, 2))
+    return res
 
 
 # ------------------------------------------------------------------ real code
@@ -353,6 +402,9 @@ def stored_before(lines_of_trace, n):
         if ln["ev"] == "Store":
             v = ln["a"]["v"]
             cur[key(v["id"])] = v["tag"]
+        elif ln["ev"] == "GapBackfill":
+            for v in ln["a"].get("fills", []):
+                cur[key(v["id"])] = v["tag"]
     return cur
 
 
@@ -375,6 +427,29 @@ def classify_c12(rej, line, trace_lines):
             # the slice(s) the call returned hold other bytes after later calls than right after the call
             return "%s/%s/returned-bytes-changed-while-held" % (ev, via), {"at_return": now, "later": s["held"]}
     cur = stored_before(trace_lines, line["n"])
+    if ev == "GapBackfill":
+        st = line["a"]["st"]
+        own = {k[3] for k in cur if k[:3] == (st["ec"], st["em"], st["tc"])}
+        filled = {v["id"]["seq"] for v in line["a"].get("fills", [])}
+        plan = line["a"].get("plan", {})
+        if "does not allow" in rej.get("why", ""):
+            served = {(key(v["id"]), v["tag"]) for v in line["a"].get("served", [])}
+            if any((key(v["id"]), v["tag"]) not in served for v in line["a"].get("fills", [])):
+                return "GapBackfill/admin/stored-bytes-no-backfill-node-delivered", {}
+            return "GapBackfill/admin/overwrote-a-stored-sequence", {"stream": st}
+        if s.get("badid"):
+            return "GapBackfill/admin/reports-identifier-of-another-stream", {}
+        want = set(gap_of(own)[0]) - filled if own else None
+        got = set(s.get("missing", []))
+        if want is not None:
+            lost = sorted(want - got)
+            if lost:
+                return "GapBackfill/admin/gap-neither-filled-nor-reported", {
+                    "stream": st, "gaps": lost, "backfill_node_did": {str(q): plan.get(str(q), "404") for q in lost}}
+            if got - want:
+                return "GapBackfill/admin/reports-a-filled-or-present-sequence", {"stream": st, "sequences": sorted(got - want)}
+            return "GapBackfill/admin/wrong-range", {"stream": st}
+        return "GapBackfill/admin/wrong-result-for-empty-stream", {"stream": st, "filled": sorted(filled)}
     if ev == "Gap":
         st = line["a"]["st"]
         own = {k[3] for k in cur if k[:3] == (st["ec"], st["em"], st["tc"])}
